@@ -116,6 +116,34 @@ def disp2(ctx) -> List[Ob]:
     if not codegen_names:
         raise AnalysisError("no list-lowering loop around the dispatcher found")
     for m in _front_methods(ctx):
+        if m.name not in codegen_names:
+            continue
+        cfg = ctx.cfg(m)
+        params = [p.arg for p in m.params if p.arg != "self"]
+        for lp in [n for n in A.walk_no_nested(m.node) if isinstance(n, ast.For)]:
+            calls = [c for c in method_calls(lp, disp_fn.name) if c.args and isinstance(c.args[0], ast.Name) and isinstance(lp.target, ast.Name) and c.args[0].id == lp.target.id]
+            if not calls:
+                continue
+            key = f"{m.name}: every element is dispatched"
+            where = ctx.where(m, lp)
+            probs = []
+            if not (isinstance(lp.iter, ast.Name) and lp.iter.id in params):
+                probs.append(f"iterates {A.unparse(lp.iter)[:40]}, not the whole list it was given")
+            hdr = cfg.node_of(lp)
+            cn = cfg.node_of(calls[0])
+            first = [z for z in hdr.succ if z.stmt is not None and any(z.stmt is b or any(a is b for a in A.ancestors(z.stmt)) for b in lp.body)]
+            # every path through the body reaches the dispatch call; no way out of the loop other than exhaustion
+            skip = any((hdr in cfg.reachable(f, avoid=lambda z: z is cn, include_src=True) and f is not cn) for f in first)
+            if skip:
+                probs.append("an element can be skipped without being dispatched")
+            leaves = [n for n in A.walk_no_nested(lp) if isinstance(n, (ast.Break, ast.Return))]
+            if leaves:
+                probs.append(f"the loop can stop early (line {A.lineno(leaves[0])}): the remaining statements are never dispatched, so unsupported ones are dropped instead of refused")
+            if probs:
+                out.append(bad("DISP-2", m.qualname, key, where, "; ".join(probs)))
+            else:
+                out.append(ok("DISP-2", m.qualname, key, where, "the loop hands every element of its argument to the dispatcher"))
+    for m in _front_methods(ctx):
         env = typer.env(m)
         for n in A.walk_no_nested(m.node):
             if not (isinstance(n, ast.Attribute) and n.attr in STMT_LIST_FIELDS and isinstance(n.ctx, ast.Load)):
@@ -800,6 +828,16 @@ def disp8(ctx) -> List[Ob]:
             out.append(bad("DISP-8", mk.qualname, key, ctx.where(mk), f"the reader drops field(s) {sorted(missing_r)} of {K.name} (popped or never passed)"))
         else:
             out.append(ok("DISP-8", td.qualname, key, where, f"written {sorted(wkeys)} / read {sorted(rkeys)} = fields {sorted(own)}"))
+    # (d') the edge lists are written from the stored tuples, not from the filtered view
+    for tgt, fld in (("edges", "_jump_targets"), ("backedges", "backedges")):
+        sts = [x for x in A.walk_no_nested(td.node) if isinstance(x, ast.Assign) and len(x.targets) == 1 and isinstance(x.targets[0], ast.Subscript) and A.unparse(x.targets[0].value) == tgt]
+        for x in sts:
+            attrs = sorted({n.attr for n in ast.walk(x.value) if isinstance(n, ast.Attribute) and A.unparse(n.value) == subj})
+            key = f"{tgt}[...] written from"
+            if attrs == [fld]:
+                out.append(ok("DISP-8", td.qualname, key, ctx.where(td, x), f"{tgt} written from the stored tuple .{fld}"))
+            else:
+                out.append(bad("DISP-8", td.qualname, key, ctx.where(td, x), f"{tgt} is written from {['.' + a for a in attrs]} instead of the stored tuple .{fld}: declared back edges change position or disappear from the successor list"))
     # (e) text sink quoting
     ty = io["to_yaml"]
     for lp in [n for n in A.walk_no_nested(ty.node) if isinstance(n, ast.For)]:
@@ -808,6 +846,17 @@ def disp8(ctx) -> List[Ob]:
         if not (isinstance(lp.target, ast.Tuple) and len(lp.target.elts) == 2 and all(isinstance(e, ast.Name) for e in lp.target.elts)):
             continue
         vname = lp.target.elts[1].id
+        ycfg = ctx.cfg(ty)
+        hdr = ycfg.node_of(lp)
+        writes = [ycfg.node_of(n) for n in A.walk_no_nested(lp) if isinstance(n, ast.AugAssign) and any(isinstance(f, ast.FormattedValue) and vname in A.names_in(f.value) for f in ast.walk(n.value))]
+        if writes:
+            first = [z for z in hdr.succ if z.stmt is not None and any(z.stmt is b or any(a is b for a in A.ancestors(z.stmt)) for b in lp.body)]
+            skipped = any(f not in writes and hdr in ycfg.reachable(f, avoid=lambda z: z in writes, include_src=True) for f in first)
+            key = "every block attribute is written"
+            if skipped:
+                out.append(bad("DISP-8", ty.qualname, key, ctx.where(ty, lp), "an attribute of a block can be skipped when the YAML text is written: the value comes back as the class default"))
+            else:
+                out.append(ok("DISP-8", ty.qualname, key, ctx.where(ty, lp), "each (key, value) of the block table is written on every iteration"))
         for fv in [n for n in ast.walk(lp) if isinstance(n, ast.FormattedValue)]:
             if vname in A.names_in(fv.value):
                 key = "block attribute values in the YAML text"
@@ -832,8 +881,25 @@ def disp9(ctx) -> List[Ob]:
     subj, arms = chains[0]
     is_sub = prog_is_sub(prog)
 
+    def fixups_k(fn):
+        """{(attr, target kind)}: 'subgraph' = X.subregion, 'nested' = a region met while
+        iterating a sub-graph, 'self' = the region at hand"""
+        outk = set()
+        for c in A.walk_no_nested(fn.node):
+            if isinstance(c, ast.Call) and (A.dotted(c.func) or "") == "object.__setattr__" and len(c.args) == 3 and isinstance(c.args[1], ast.Constant):
+                tgt = c.args[0]
+                kind = "self"
+                if isinstance(tgt, ast.Attribute) and tgt.attr == "subregion":
+                    kind = "subgraph"
+                elif isinstance(tgt, ast.Name):
+                    for anc in A.ancestors(c):
+                        if isinstance(anc, ast.For) and ".subregion.graph" in A.unparse(anc.iter) and tgt.id in A.names_in(anc.target):
+                            kind = "nested"
+                outk.add((c.args[1].value, kind))
+        return outk
+
     def fixups(fn):
-        return {c.args[1].value for c in A.walk_no_nested(fn.node) if isinstance(c, ast.Call) and (A.dotted(c.func) or "") == "object.__setattr__" and len(c.args) == 3 and isinstance(c.args[1], ast.Constant)}
+        return {a for a, _k in fixups_k(fn)}
 
     reader_fix = fixups(mk)
     for K in block_classes(prog):
@@ -861,10 +927,12 @@ def disp9(ctx) -> List[Ob]:
     er = prog.find_function("extract_region")
     if er is None:
         raise AnalysisError("extract_region not found")
-    for attr in sorted(fixups(er)):
-        key = f"pointer '{attr}' restored on read"
-        if attr in reader_fix:
-            out.append(ok("DISP-9", mk.qualname, key, ctx.where(mk), f"extract_region sets '{attr}', so does the reader"))
+    rk = fixups_k(mk)
+    what = {"subgraph": "of the region's sub-graph", "nested": "of the regions nested inside the sub-graph", "self": "of the region"}
+    for attr, kind in sorted(fixups_k(er)):
+        key = f"pointer '{attr}' {what[kind]} restored on read"
+        if (attr, kind) in rk:
+            out.append(ok("DISP-9", mk.qualname, key, ctx.where(mk), f"extract_region sets '{attr}' {what[kind]}, so does the reader"))
         else:
-            out.append(bad("DISP-9", mk.qualname, key, ctx.where(mk), f"extract_region maintains the back pointer '{attr}' but the reader never sets it: a graph that was read has stale / string pointers"))
+            out.append(bad("DISP-9", mk.qualname, key, ctx.where(mk), f"extract_region maintains the pointer '{attr}' {what[kind]} but the reader never sets it: a graph that was read has stale / string pointers there"))
     return out
